@@ -97,7 +97,7 @@ func subsets(letters string) []string {
 
 // ---- calls into the library, each under recover ----------------------------------------------
 
-func safeDiff(a, b any, ign []alt.Path) (res string) {
+func safeDiff(a, b any, ign []alt.Path, count *int) (res string) {
 	defer func() {
 		if r := recover(); r != nil {
 			res = fmt.Sprintf("panic %v", r)
@@ -108,6 +108,7 @@ func safeDiff(a, b any, ign []alt.Path) (res string) {
 	for i, d := range ds {
 		texts[i] = altText(d)
 	}
+	*count = len(ds)
 	return setOf(texts)
 }
 
@@ -136,6 +137,13 @@ func safeMatch(f, t any) (res string) {
 	return "f"
 }
 
+func answerCount(ans string) int {
+	if ans == "-" {
+		return 0
+	}
+	return strings.Count(ans, ";") + 1
+}
+
 func altIgnores(ign []Path) []alt.Path {
 	out := make([]alt.Path, len(ign))
 	for i, p := range ign {
@@ -149,6 +157,7 @@ func altIgnores(ign []Path) []alt.Path {
 type flavRun struct {
 	fl        string
 	implDiff  string
+	implCount int // number of paths returned, repetitions included
 	implCmp   string
 	implMatch string
 	qDiff     int // request indexes
@@ -200,7 +209,7 @@ func prepare(c *Case, reqs *[]string) *caseRun {
 			va, vb = genAny(c.A.toGen()), genAny(c.B.toGen())
 		}
 		fr := flavRun{fl: fl}
-		fr.implDiff = safeDiff(va, vb, ign)
+		fr.implDiff = safeDiff(va, vb, ign, &fr.implCount)
 		fr.implCmp = safeCompare(va, vb, altIgnores(c.Ign))
 		fr.implMatch = safeMatch(va, vb)
 		fr.qDiff = add("diff\t" + fl + "\t" + curDev + "\t0\t" + cr.a + "\t" + cr.b + "\t" + cr.ig)
@@ -258,6 +267,12 @@ func judge(cr *caseRun, ans []string, pend *[]pending, reqs2 *[]string) {
 				kept = append(kept, p.text())
 			}
 		}
+		if len(kept) < len(c.Exp) {
+			rep.Count("ignores.covering_an_injected_difference", 1)
+			if len(kept) > 0 {
+				rep.Count("ignores.covering_some_but_not_all", 1)
+			}
+		}
 		if want := setOf(kept); want != spec {
 			add("disagreement", "oracle-construction", "the differences injected by the generator are not the specification's",
 				cr.replayOf(nil, map[string]any{"constructed": want, "spec": spec}))
@@ -276,6 +291,9 @@ func judge(cr *caseRun, ans []string, pend *[]pending, reqs2 *[]string) {
 		} else {
 			if fr.implDiff != model {
 				add("disagreement", "model-diff:"+fr.fl, "model and implementation return different path sets", cr.replayOf(fr, info))
+			} else if n := answerCount(ans[fr.qDiff]); n != fr.implCount {
+				info["impl_count"], info["model_count"] = fr.implCount, n
+				add("disagreement", "model-diff-multiplicity:"+fr.fl, "model and implementation return the same paths a different number of times", cr.replayOf(fr, info))
 			}
 			if normSet(fr.implDiff) != spec {
 				rep.Count("impl.diff_deviates."+fr.fl, 1)
